@@ -91,6 +91,10 @@ Definition ns_from_base_and_set (k : nkind) (base : Z) (set : list Z) : option n
         ns_insert_all k (ns_new base nbits) (filter (fun s => (base <=? s) && (s <=? last)) set)
   end.
 
+(* the base from_base_and_set actually uses: `if start < base { start } else { base }` *)
+Definition set_min (S : list Z) : Z := match S with [] => 0 | x :: r => fold_left Z.min r x end.
+Definition adj_base (b : Z) (S : list Z) : Z := if set_min S <? b then set_min S else b.
+
 (* NumberSet::iter() collected.  None = panic (bitmap index out of bounds, or the addition
    N::from(at_bit) + bitmap_base overflows). *)
 Definition ns_iter (k : nkind) (s : numset) : option (list Z) :=
@@ -374,8 +378,11 @@ Definition ser_sub := ser_sub_gen false.
 
 (* Submessage::read_from_buffer(&mut buffer) *)
 Inductive sres := SErr | SSkip (rest : list Z) | SOk (s : submsg) (rest : list Z) | SUnmodelled.
+(* Readable for SubmessageHeader: kind, flags, content_length in the byte order of the flags *)
+Definition read_subhdr : reader (Z * Z * Z) :=
+  k <- read_u8 ;; f <- read_u8 ;; l <- dec_u16 (eflag f) ;; ret (k, f, l).
 Definition read_sub (bs : list Z) : sres :=
-  match (k <- read_u8 ;; f <- read_u8 ;; l <- dec_u16 (eflag f) ;; ret (k, f, l)) bs with
+  match read_subhdr bs with
   | None => SErr                                  (* fewer than 4 bytes left *)
   | Some ((k, f, clen), r) =>
     let proposed :=
